@@ -220,7 +220,7 @@ def hunts(quick, focus, timeout):
             c = {'objective': ['signchg', 'linear'][i % 2], 'ret': ['pyfloat', 'npscalar'][(i // 2) % 2], 'box': 'sym10', 'agents': [2, 3][(i // 4) % 2],
                  'n_variables': [1, 2][(i // 8) % 2], 'n_dimensions': 1, 'n_iterations': [3, 10][(i // 16) % 2], 'draws': 'seeded',
                  'hp': ['default', 'lo'][(i // 16) % 2], 'store_best_only': False, 'hook': 'observe'}
-            cfg = make('ABC', 'search', c, 8000 + i, min(timeout, 3.0))
+            cfg = make('ABC', 'search', c, 8000 + i, min(timeout, 2.0))
             cfg['repro'] = False
             out.append(cfg)
     if 'RPSO' in opts:
